@@ -1011,6 +1011,12 @@ func newCase(r *hlib.Rng, s *hlib.Suite) {
 		}
 	}
 	is := func(f int, num, den int) bool { return fault == f || (fault == 6 && r.Chance(num, den)) }
+	sharedBacking := []string{"spare-0", "spare-1", "spare-2", "spare-3", "spare-4", "spare-5", "spare-6", "spare-7"}
+	sharedEmpty := sharedBacking[:0]
+	twoShared := fault == -1 && r.Chance(1, 6)
+	if twoShared && k < 2 {
+		k = 2 + r.Intn(3)
+	}
 	deviant := -1
 	if fault == 1 {
 		deviant = r.Intn(k)
@@ -1042,6 +1048,9 @@ func newCase(r *hlib.Rng, s *hlib.Suite) {
 		kind := r.Intn(11)
 		if fault == 8 && i == 0 {
 			kind = 3
+		}
+		if twoShared && i < 2 {
+			kind = 3 + r.Intn(3) // two string-data columns, both declared enum with the shared empty list
 		}
 		if fault == 2 && i == 0 {
 			kind = []int{6, 9}[r.Intn(2)]
@@ -1123,12 +1132,19 @@ func newCase(r *hlib.Rng, s *hlib.Suite) {
 			vals := append([]string{}, strPool...)
 			vals = append(vals, vals[r.Intn(len(vals))])
 			enums[name] = vals
+		} else if twoShared && i < 2 {
+			enums[name] = sharedEmpty
 		} else if (isStr && r.Chance(1, 2)) || (fault == 6 && r.Chance(1, 10)) || (fault == 9 && i == 0) {
 			switch r.Intn(3) {
 			case 0:
 				enums[name] = nil
+				if r.Chance(1, 2) {
+					// "values derived from the data" given as an EMPTY list that has spare capacity, the same
+					// list for every such column of the case
+					enums[name] = sharedEmpty
+				}
 			case 1:
-				enums[name] = append([]string{}, strPool...)
+				enums[name] = append(make([]string, 0, len(strPool)+5), strPool...)
 			default:
 				enums[name] = []string{"a", "b", ""}
 			}
@@ -1181,6 +1197,19 @@ func newCase(r *hlib.Rng, s *hlib.Suite) {
 	}); p {
 		s.Fail(id, fmt.Sprintf("New panicked: %v", v), desc, "")
 		return
+	}
+	for i, v := range sharedBacking {
+		if v != fmt.Sprintf("spare-%d", i) {
+			// the list is shared by every column declared with it: what one column appends the other reads as ITS values
+			d2 := map[string]interface{}{"props": []string{"C08", "C17"}}
+			for k, x := range desc {
+				if k != "props" {
+					d2[k] = x
+				}
+			}
+			s.Fail(id, fmt.Sprintf("New wrote into the array behind an enum value list it was given (element %d is now %q): columns declared with that list share their value tables", i, v), d2, "")
+			break
+		}
 	}
 	od := qframe.VerifDump(out)
 	if out.Err != nil {
